@@ -129,6 +129,8 @@ def parse_fusion_catcher(args:argparse.Namespace) -> None:
 
     logger.info('FusionCatcher output %s loaded.', fusion)
 
+    tally.log()
+
     if not variants:
         logger.warning('No variant record is saved.')
         return
@@ -143,5 +145,3 @@ def parse_fusion_catcher(args:argparse.Namespace) -> None:
     seqvar.io.write(variants, output_path, metadata)
 
     logger.info("Variants written to disk.")
-
-    tally.log()
